@@ -1046,6 +1046,12 @@ fn step_synced(env: &mut Env, op: &Op, fail: Fail, rep: &mut Report, r: &mut Rng
     let mut st = env.arena.st();
     let bad: Vec<u64> = st.f2p_log.iter().filter(|x| !x.1).map(|x| x.0).collect();
     rep.count("frame_to_pointer_calls", st.f2p_log.len() as u64);
+    if st.in_callback_checks != 0 {
+        rep.count("in_callback_dealloc_checks", st.in_callback_checks);
+        rep.count("in_callback_tables_walked", st.in_callback_tables_walked);
+        st.in_callback_checks = 0;
+        st.in_callback_tables_walked = 0;
+    }
     if !bad.is_empty() && !violated {
         viol(rep, env, "C09", format!("{}|{}|{}|frame_to_pointer-for-non-table-frame", kname, opn, cls_sig(&cls)), op, vec![("frame", J::hex(bad[0]))]);
         violated = true;
